@@ -14,18 +14,14 @@ namespace BitSerializer
 	template<typename TArchive, size_t Size>
 	void SerializeArray(TArchive& archive, std::bitset<Size>& cont)
 	{
-		bool value = false;
 		for (size_t i = 0; i < Size; i++)
 		{
+			// When loading, a bit keeps its existing value if the item could not be loaded (null or mismatched type)
+			bool value = cont.test(i);
+			Serialize(archive, value);
 			if constexpr (TArchive::IsLoading())
 			{
-				Serialize(archive, value);
 				cont.set(i, value);
-			}
-			else
-			{
-				value = cont.test(i);
-				Serialize(archive, value);
 			}
 		}
 	}
